@@ -614,6 +614,9 @@ class TotalWorld(OracleWorld):
             it = deref_all(m, st, it.data[0])
         return isinstance(it, Opq) and it.kind in ("chars", "char_indices")
 
+    def iter_next_back(self, m, st, ref, it):
+        return self.iter_next(m, st, ref, it)
+
     def iter_next(self, m, st, ref, it):
         if not self._known_source(m, st, it):
             return None
@@ -730,6 +733,13 @@ class TotalWorld(OracleWorld):
         for b, nm in ((lo, "start"), (hi, "end")):
             if b is None:
                 continue
+            if isinstance(b, I) and b.v > 0 and isinstance(tag, tuple) and len(tag) == 4 and tag[0] == "slice" and tag[2][0] == "val" and isinstance(tag[2][1], Sym):
+                # s[pos..][n..] / [..n] with n = len_utf8 of the character that starts at byte offset pos of s
+                chn = st.facts.get(("char-at", tag[2][1].name))
+                if chn is not None:
+                    r_ = rng_get(st, Sym(chn, "char"))
+                    if _utf8_len(r_[0][0]) == _utf8_len(r_[-1][1]) == b.v:
+                        continue
             okk, p = self.bound_ok(st, b, tag)
             if not okk:
                 self.finding(st, "slice-bound", "str slice %s bound is %s: not a byte offset of the sliced string (may fall inside a multi-byte character or beyond the end)" % (nm, PROV_WORDS.get(p[0], p[0])))
